@@ -70,7 +70,7 @@ class Feeder:
             self._ring[i, :] = x
             return self._ring[i] if kind == "reused1d" else self._ring[i:i + 1]
         if kind == "scalar":
-            return float(x[0])
+            return _pyrow(x)[0]          # a Python int when the value is whole
         raise KeyError(kind)
 
     # ---- a batch for a batch detector ---------------------------------------------------------------
